@@ -129,6 +129,38 @@ func VerifC06_sole_priority() {
 	vReach("end")
 }
 
+// C06-P2 over two rounds: inputs that close are observed in the first round; data that arrives on
+// another input afterwards must still be delivered in the next round, with nothing in flight and
+// without any release (what was learnt in round one must not starve round two).
+// gosym: mode=int
+func VerifC06_progress_two_rounds() {
+	n := vParam("n", 3)
+	q := vChoose("q", n)
+	e := vRoundSetup(n, -1)
+	d := e.d
+	for i, p := range e.ps {
+		vAssume(d.actual[p] == 0)
+		in := d.inputs[p]
+		in.Drained = false
+		d.inputs[p] = in
+		if i != q && vChoose("closes", 2) == 1 {
+			close(e.ins[i]) // closed and empty, not yet observed
+		}
+	}
+	vOnBlock(e.fb, func() {
+		vAssert(false, "C06: with nothing in flight the round never waits for a release")
+		vDecline()
+	})
+	_, err := d.base()
+	vAssert(err == nil, "no error with a sum-preserving divider")
+	vAssert(e.sends == 0, "nothing to deliver in the first round")
+	e.preload(q, 1)
+	processed, err := d.base()
+	vAssert(err == nil, "no error with a sum-preserving divider")
+	vAssert(processed >= 1, "C06: with nothing in flight and data on some input an item is delivered without any release (also after other inputs were seen closed)")
+	vReach("end")
+}
+
 // v1 WITHOUT the precondition: a division with a zero share is accepted (known finding)
 // gosym: mode=int
 func VerifC06_v1_zero_share() {
